@@ -1,11 +1,364 @@
-// Package c06: correspondence ops for C06 (stub, not yet built).
 package c06
 
 import (
+	"encoding/json"
+	"fmt"
+	"math/rand/v2"
+
 	"verifharness/internal/core"
 	"verifharness/internal/registry"
+	"verifharness/internal/world"
 )
 
 func init() { registry.Register("C06", Ops) }
 
-func Ops() []*core.Op { return nil }
+func runLabels(raw json.RawMessage, impl any) []string {
+	var in RunIn
+	_ = json.Unmarshal(raw, &in)
+	m, _ := impl.(map[string]any)
+	l := []string{}
+	el, _ := m["eligible"].([]any)
+	l = append(l, fmt.Sprintf("eligible=%d", min(len(el), 4)))
+	if e, _ := m["err"].(string); e != "" {
+		l = append(l, "error")
+	}
+	cmd, _ := m["cmd"].(map[string]any)
+	if cmd == nil {
+		l = append(l, "no-command")
+	} else {
+		cs, _ := cmd["cands"].([]any)
+		d, _ := cmd["decision"].(string)
+		l = append(l, fmt.Sprintf("%s:cands=%d", d, min(len(cs), 4)))
+		allSpot := len(cs) > 0
+		for _, c := range cs {
+			cm, _ := c.(map[string]any)
+			if ct, _ := cm["ct"].(string); ct != "spot" {
+				allSpot = false
+			}
+			if ct, _ := cm["ct"].(string); ct != "" {
+				l = append(l, "cand-ct="+ct)
+			}
+		}
+		rp, _ := cmd["repl"].([]any)
+		for _, c := range rp {
+			cm, _ := c.(map[string]any)
+			its, _ := cm["its"].([]any)
+			switch {
+			case len(its) >= 15:
+				l = append(l, "repl-options>=15")
+			case len(its) > 1:
+				l = append(l, "repl-options=2..14")
+			default:
+				l = append(l, fmt.Sprintf("repl-options=%d", len(its)))
+			}
+			if allSpot {
+				l = append(l, "spot-to-spot")
+			}
+			reqs, _ := cm["reqs"].(map[string]any)
+			if ct, ok := reqs[ctKey].(map[string]any); ok {
+				vs, _ := ct["values"].([]any)
+				if c, _ := ct["complement"].(bool); !c && len(vs) == 1 {
+					l = append(l, fmt.Sprintf("repl-ct=%v", vs[0]))
+				}
+			}
+		}
+		res, _ := cmd["results"].(map[string]any)
+		if ex, _ := res["existing"].([]any); len(ex) > 0 {
+			l = append(l, "pods-moved-to-existing-nodes")
+		}
+	}
+	if in.SpotToSpot {
+		l = append(l, "gate:spot-to-spot")
+	}
+	if in.Scn.ReservedCapacity {
+		l = append(l, "reserved-catalog")
+	}
+	if len(in.Pick) > 0 {
+		l = append(l, "picked-candidate")
+	}
+	if len(in.PDBs) > 0 {
+		l = append(l, "with-pdb")
+	}
+	for _, pe := range in.Pools {
+		if pe.Policy == "Balanced" {
+			l = append(l, "balanced-pool")
+			break
+		}
+	}
+	if c, _ := m["churned"].(bool); c && in.Churn != nil {
+		l = append(l, "churn:"+in.Churn.Kind)
+	}
+	return l
+}
+
+func hasCmd(raw json.RawMessage, impl any) bool {
+	m, _ := impl.(map[string]any)
+	return m["cmd"] != nil
+}
+
+func isReplace(raw json.RawMessage, impl any) bool {
+	m, _ := impl.(map[string]any)
+	cmd, _ := m["cmd"].(map[string]any)
+	d, _ := cmd["decision"].(string)
+	return d == "replace"
+}
+
+func shrinkRun(raw json.RawMessage) []any {
+	var in RunIn
+	if json.Unmarshal(raw, &in) != nil {
+		return nil
+	}
+	var out []any
+	// drop a node
+	for i := range in.Scn.Nodes {
+		c := in
+		c.Scn.Nodes = append(append([]world.Node{}, in.Scn.Nodes[:i]...), in.Scn.Nodes[i+1:]...)
+		c.Pods, c.Nodes, c.Pick = filterExt(&c)
+		out = append(out, c)
+	}
+	// drop a pod of a node
+	for i := range in.Scn.Nodes {
+		for j := range in.Scn.Nodes[i].Pods {
+			c := in
+			c.Scn.Nodes = append([]world.Node{}, in.Scn.Nodes...)
+			n := c.Scn.Nodes[i]
+			n.Pods = append(append([]world.Pod{}, n.Pods[:j]...), n.Pods[j+1:]...)
+			c.Scn.Nodes[i] = n
+			c.Pods, c.Nodes, c.Pick = filterExt(&c)
+			out = append(out, c)
+		}
+	}
+	// drop an instance type no node runs on
+	for i := range in.Scn.ITs {
+		used := false
+		for _, n := range in.Scn.Nodes {
+			if n.IT == in.Scn.ITs[i].Name {
+				used = true
+			}
+		}
+		if used {
+			continue
+		}
+		c := in
+		c.Scn.ITs = append(append([]world.IT{}, in.Scn.ITs[:i]...), in.Scn.ITs[i+1:]...)
+		out = append(out, c)
+	}
+	if len(in.Scn.Pods) > 0 {
+		c := in
+		c.Scn.Pods = []world.Pod{}
+		out = append(out, c)
+	}
+	if len(in.Scn.DaemonSets) > 0 {
+		c := in
+		c.Scn.DaemonSets = nil
+		out = append(out, c)
+	}
+	return out
+}
+
+func filterExt(in *RunIn) ([]PodExt, []NodeExt, []string) {
+	pods, nodes := map[string]bool{}, map[string]bool{}
+	for _, n := range in.Scn.Nodes {
+		nodes[n.Name] = true
+		for _, p := range n.Pods {
+			pods[p.Name] = true
+		}
+	}
+	pe := []PodExt{}
+	for _, p := range in.Pods {
+		if pods[p.Pod] {
+			pe = append(pe, p)
+		}
+	}
+	ne := []NodeExt{}
+	for _, n := range in.Nodes {
+		if nodes[n.Node] {
+			ne = append(ne, n)
+		}
+	}
+	pk := []string{}
+	for _, p := range in.Pick {
+		if nodes[p] {
+			pk = append(pk, p)
+		}
+	}
+	return pe, ne, pk
+}
+
+func runOp(name, method, doc string, quick, thorough int, nontrivial func(json.RawMessage, any) bool, rule string) *core.Op {
+	return &core.Op{
+		Name: name,
+		Doc:  doc,
+		N:    func(t core.Tier) int { return map[core.Tier]int{core.Quick: quick, core.Thorough: thorough}[t] },
+		Gen:  genRun(method),
+		Impl: implRun,
+		Rule: rule, Nontrivial: nontrivial,
+		Labels:    runLabels,
+		Signature: func(raw json.RawMessage, impl any) string { return method },
+		Shrink:    shrinkRun,
+	}
+}
+
+func Ops() []*core.Op {
+	return []*core.Op{
+		runOp("c06.single", "single",
+			"the real SingleNodeConsolidation.ComputeCommands (MakeConsolidation, candidates from GetCandidates, real provisioner / scheduler / validator, fake clock stepped through the validation delay) on generated clusters and price tables; the command judged by the Lean end-state specification (feasible home via the C01 admissibility oracle, <= 1 replacement, every permitted launch strictly cheaper, spot-to-spot gate and 15-option floor, no dearer on-demand fallback) and compared with the model's computeConsolidation on the harness's own SimulateScheduling of the same candidates",
+			1000, 12000, isReplace, "non-trivial = a replace decision is produced"),
+		runOp("c06.multi", "multi",
+			"the real MultiNodeConsolidation.ComputeCommands (binary search over candidate prefixes, filterOutSameInstanceType, validator) on generated clusters; same specification; model = multiStep on the simulation of the command's candidate set",
+			1000, 12000, hasCmd, "non-trivial = a command is produced (delete or replace of >= 2 nodes)"),
+		runOp("c06.empty", "empty",
+			"the real Emptiness.ComputeCommands on generated clusters with pods whose eviction cost is exactly 0, just above 0, clamped, or terminal; specification: deleted as empty only if no reschedulable pod has a positive eviction cost",
+			300, 5000, hasCmd, "non-trivial = an Emptiness command is produced"),
+		{
+			Name: "c06.compute",
+			Doc:  "computeConsolidation itself (verif hook VerifComputeConsolidation: the decision BEFORE validation) for an arbitrary subset of the eligible candidates, then filterOutSameInstanceType (VerifFilterOutSameInstanceType) as in one step of the multi-node search; the decision compared exactly with the model's compute / multiStep on the harness's SimulateScheduling of the same subset, and every non-no-op decision judged by the end-state specification",
+			N:    func(t core.Tier) int { return map[core.Tier]int{core.Quick: 1200, core.Thorough: 15000}[t] },
+			Gen:  genCompute, Impl: implCompute,
+			Rule: "non-trivial = a replace decision is produced", Nontrivial: isReplace,
+			Labels: func(raw json.RawMessage, impl any) []string {
+				l := runLabels(raw, impl)
+				m, _ := impl.(map[string]any)
+				if st, _ := m["sameType"].(map[string]any); st != nil {
+					its, _ := st["its"].([]any)
+					cmd, _ := m["cmd"].(map[string]any)
+					rp, _ := cmd["repl"].([]any)
+					before := 0
+					if len(rp) == 1 {
+						b, _ := rp[0].(map[string]any)["its"].([]any)
+						before = len(b)
+					}
+					e, _ := st["err"].(bool)
+					switch {
+					case e:
+						l = append(l, "same-type:error")
+					case len(its) == 0:
+						l = append(l, "same-type:all-removed")
+					case len(its) < before:
+						l = append(l, "same-type:some-removed")
+					default:
+						l = append(l, "same-type:none-removed")
+					}
+				}
+				if sim, _ := m["sim"].(map[string]any); sim != nil {
+					if a, _ := sim["allScheduled"].(bool); !a {
+						l = append(l, "sim:unscheduled-pods")
+					}
+					cl, _ := sim["claims"].([]any)
+					l = append(l, fmt.Sprintf("sim:new-claims=%d", min(len(cl), 3)))
+				}
+				return l
+			},
+			Signature: func(raw json.RawMessage, impl any) string { return "compute" },
+			Shrink:    shrinkRun,
+		},
+		{
+			Name: "c06.validate",
+			Doc:  "the real ComputeCommands of single- and multi-node consolidation while the cluster changes during the 15 s validation delay (a pod lands on a node, a pending pod appears, instance types go out of stock, a node starts deleting): a released command is judged against the cluster as it is at release (a feasible home must still EXIST for every reschedulable pod of the removed nodes: the command's own placements, else an exhaustive search), and compared with the model's validateCommand on the harness's re-simulation",
+			N:    func(t core.Tier) int { return map[core.Tier]int{core.Quick: 800, core.Thorough: 10000}[t] },
+			Gen: func(r *rand.Rand, t core.Tier) any {
+				// the shape of the recorded finding (kept rare: the corpus replays its witness on every run, and a
+				// flood of known failures would crowd other failures out of the report)
+				if r.Float64() < map[core.Tier]float64{core.Quick: 0.01, core.Thorough: 0}[t] {
+					return genValidateZone(r, t)
+				}
+				return genValidate(r, t)
+			},
+			Impl: implRun,
+			Rule: "non-trivial = a command reached validation and the change was delivered during the wait",
+			Nontrivial: func(raw json.RawMessage, impl any) bool {
+				m, _ := impl.(map[string]any)
+				c, _ := m["churned"].(bool)
+				return c
+			},
+			Labels: func(raw json.RawMessage, impl any) []string {
+				l := runLabels(raw, impl)
+				m, _ := impl.(map[string]any)
+				if c, _ := m["churned"].(bool); c {
+					if m["cmd"] != nil {
+						l = append(l, "released-after-churn")
+					} else {
+						l = append(l, "rejected-after-churn")
+					}
+				}
+				return l
+			},
+			Signature: func(raw json.RawMessage, impl any) string { return "validate" },
+			Shrink:    shrinkRun,
+		},
+		{
+			Name: "c06.worst",
+			Doc:  "cloudprovider.Offerings.Compatible / Available().WorstLaunchPrice / WorstLaunchPrice / Cheapest / MostExpensive on generated offerings (spot / on-demand / reserved, price ties, unavailable) and requirements over capacity-type, zone and reservation-id (In, NotIn, Exists, DoesNotExist, Gt, empty sets)",
+			N:    func(t core.Tier) int { return map[core.Tier]int{core.Quick: 3000, core.Thorough: 60000}[t] },
+			Gen:  genWorst, Impl: implWorst, Enum: enumWorst,
+			ExhaustiveNote: "every subset of a 6-offering universe (reserved/spot/on-demand x 2 zones, available or not, price ties) x 13 capacity-type requirement shapes x (3 zone | 3 reservation-id shapes): 64 x 13 x 5 = 4160 cases",
+			Rule: "non-trivial = some offering is compatible",
+			Nontrivial: func(raw json.RawMessage, impl any) bool {
+				m, _ := impl.(map[string]any)
+				cs, _ := m["compat"].([]any)
+				for _, c := range cs {
+					if b, _ := c.(bool); b {
+						return true
+					}
+				}
+				return false
+			},
+			Labels: func(raw json.RawMessage, impl any) []string {
+				m, _ := impl.(map[string]any)
+				l := []string{}
+				if fmt.Sprint(m["worst"]) == "-1" {
+					l = append(l, "worst=max")
+				} else {
+					l = append(l, "worst=price")
+				}
+				if fmt.Sprint(m["worst"]) != fmt.Sprint(m["worstAvailable"]) {
+					l = append(l, "unavailable-offering-changes-worst")
+				}
+				return l
+			},
+			Signature: func(raw json.RawMessage, impl any) string { return "worst" },
+		},
+		{
+			Name: "c06.remove",
+			Doc:  "scheduling.NodeClaim.RemoveInstanceTypeOptionsByPriceAndMinValues on generated instance types, requirements (with minValues on instance-type / zone / arch) and price bounds at, just below and just above offering prices; kept options and the minValues error vs the model, and the price clause of the property on what the real filter kept",
+			N:    func(t core.Tier) int { return map[core.Tier]int{core.Quick: 3000, core.Thorough: 60000}[t] },
+			Gen:  genRemove, Impl: implRemove,
+			Rule: "non-trivial = at least one option is kept or the minValues error is returned",
+			Nontrivial: func(raw json.RawMessage, impl any) bool {
+				m, _ := impl.(map[string]any)
+				k, _ := m["kept"].([]any)
+				e, _ := m["err"].(bool)
+				return len(k) > 0 || e
+			},
+			Labels: func(raw json.RawMessage, impl any) []string {
+				m, _ := impl.(map[string]any)
+				k, _ := m["kept"].([]any)
+				e, _ := m["err"].(bool)
+				return []string{fmt.Sprintf("kept=%d", min(len(k), 4)), fmt.Sprintf("minValues-error=%v", e)}
+			},
+			Signature: func(raw json.RawMessage, impl any) string { return "remove" },
+		},
+		{
+			Name: "c06.isempty",
+			Doc:  "disruption.EvictionCost per pod and Candidate.IsEmpty (candidate built by GetCandidates on a one-node world) for pods with deletion-cost / priority values at the zero crossing and the clamp bounds, DaemonSet pods, terminal pods, malformed annotations",
+			N:    func(t core.Tier) int { return map[core.Tier]int{core.Quick: 600, core.Thorough: 10000}[t] },
+			Gen:  genIsEmpty, Impl: implIsEmpty,
+			Rule: "non-trivial = the node hosts at least one reschedulable pod",
+			Nontrivial: func(raw json.RawMessage, impl any) bool {
+				var in EmptyIn
+				_ = json.Unmarshal(raw, &in)
+				for _, p := range in.Pods {
+					if !p.Daemon && p.Phase == "" {
+						return true
+					}
+				}
+				return false
+			},
+			Labels: func(raw json.RawMessage, impl any) []string {
+				m, _ := impl.(map[string]any)
+				return []string{fmt.Sprintf("empty=%v", m["empty"])}
+			},
+			Signature: func(raw json.RawMessage, impl any) string { return "isempty" },
+		},
+	}
+}
